@@ -140,8 +140,9 @@ class TransactionManager:
 
     def error_transaction(self, exc):
         self._transition_to(TransactionState.ABORTABLE_ERROR)
-        self._txn_partitions.clear()
-        self._txn_consumer_group = None
+        # Partitions and the consumer group already registered with the
+        # coordinator stay registered until the transaction is aborted, so we
+        # must remember them: the abort has to send EndTxn.
         self._pending_txn_partitions.clear()
         for _, _, fut in self._pending_txn_offsets:
             fut.set_exception(exc)
